@@ -506,15 +506,14 @@ def check_plumbing(R):
         lines2.append(sx([Sym("unwrap"), mo[1], case["out_dims"], rec["outs"]]))
         idx2.append(ci)
     m2 = R.model(lines2)
-    UERR = {("ValueError", "incompatible_error"): "incompatible", ("ValueError", "_maybe_remove_batch_dim"): "value",
-            ("TypeError", "_maybe_remove_batch_dim"): "type"}
+    UERR = {("ValueError", "incompatible_error"): "incompatible", ("ValueError", "_maybe_remove_batch_dim"): "value"}
     for ci, mo in zip(idx2, m2):
         case, (rec, got) = cases[ci], impl[ci]
         if got[0] == "ok":
             obs = ["ok", [obs_result(x) for x in tree_flatten(got[1], is_leaf=is_tensor_collection)[0]]]
             R.count("plumbing:stage2:ok")
         else:
-            code = UERR.get((got[1], got[2])) or {"IndexError": "index", "RuntimeError": "runtime"}.get(got[1]) or f"{got[1]}@{got[2]}"
+            code = UERR.get((got[1], got[2])) or {"IndexError": "index", "RuntimeError": "runtime", "TypeError": "type"}.get(got[1]) or f"{got[1]}@{got[2]}"
             obs = ["err", code]
             R.count("plumbing:stage2:" + code)
         if obs != mo:
@@ -715,11 +714,7 @@ def check_lazy_ops(R):
                 R.oracle_fail("vmap-lazy-op:result", case, {"have_bs": list(got[1].batch_size), "want_bs": list(want[1].batch_size)},
                               dict(sig, what="wrong"))
         obs = ["ok", list(got[1].batch_size)] if got[0] == "ok" else ["raise", got[1]]
-        if cls == "nested" and ind != sd and o == rank:
-            # D192: the nested tensordict lost its extra batch dim, out_dim = rank is no position of what is left; the
-            # shape-level model has no leaves to refuse it with
-            R.count("lazy-op:not-compared-with-model")
-        elif obs != mo:
+        if obs != mo:
             R.mismatch("vmap-lazy-op", case, obs, mo)
         R.traces += 1
 
